@@ -71,13 +71,22 @@ def realise(n, edges, kind, rng, kinds=None):
     succ = {i: [b for a, b in edges if a == i] for i in range(n)}
     text = []
     decls = []
+    # a variable / element of a structure type WITH an initial value, written before the instances / elements (it adds no edge;
+    # whatever a visitor does on the way through it must leave the following declarations their edges)
+    with_init = (rng.random() < 0.5) if rng is not None else (n % 2 == 0)
+    pt_decl = "TYPE\n  PtInit : STRUCT x : INT; y : INT; END_STRUCT;\nEND_TYPE\n"
     if kind == "fb":
         for i in range(n):
             # every instance in a section of its own: an instance is contained whatever the section
             body = "".join("%s\n  v%d_%d : %s;\nEND_VAR\n" % (_section(rng, i, k), i, k, rc(rng, "Fb%d" % j))
                            for k, j in enumerate(succ[i]))
+            if with_init:
+                body = "VAR\n  p_init : PtInit := (x := 1);\nEND_VAR\n" + body
             text.append("FUNCTION_BLOCK Fb%d\n%sEND_FUNCTION_BLOCK\n" % (i, body))
             decls.append("P %d %s" % (i + 1, ",".join(str(j + 1) for j in succ[i])) if succ[i] else "P %d" % (i + 1))
+        if with_init:
+            text.insert(0, pt_decl)
+            decls.append("L %d" % (n + 1))
         return "\n".join(text), decls
     if kind == "fbstruct":
         # a containment graph that crosses between function blocks and structures: kinds[i] says what node i is
@@ -115,8 +124,13 @@ def realise(n, edges, kind, rng, kinds=None):
             decls.append("A %d %d" % (i + 1, succ[i][0] + 1))
         else:
             els = " ".join("e%d : %s;" % (k2, rc(rng, "Ty%d" % j)) for k2, j in enumerate(succ[i]))
+            if with_init:
+                els = "e_init : PtInit := (x := 1); " + els
             tl.append("  Ty%d : STRUCT %s END_STRUCT;" % (i, els))
             decls.append("S %d %s" % (i + 1, ",".join(str(j + 1) for j in succ[i])))
+    if with_init and any("e_init" in x for x in tl):
+        tl.insert(1, "  PtInit : STRUCT x : INT; y : INT; END_STRUCT;")
+        decls.append("L %d" % (n + 1))
     tl.append("END_TYPE")
     return "\n".join(tl) + "\n", decls
 
@@ -229,6 +243,7 @@ def search(run, info):
         "rule": "every digraph on 1-3 nodes (self-loops included) and %s 4-node digraphs, each realised as a function-block instance "
                 "graph, a structure graph, an alias graph (when every out-degree is <= 1), a mixed alias/structure graph and a "
                 "containment graph whose nodes are function blocks and structures at random, "
+                "in half of the units an initialized structure variable / element written before the instances / elements, "
                 "a node without successors being an enumeration, subrange, array, string, structure or not declared at all, "
                 "references spelled in random letter case for half of them; random graphs with 5-12 nodes; chains of 50/200, "
                 "complete DAGs, diamonds, each also with one closing edge; non-trivial = at least one edge, distinct by "
